@@ -1,6 +1,6 @@
 (* C18 — property theorems only.  Proofs are in C18/Proofs.v, C18/ProofsService.v, C18/ProofsDto.v. *)
 From Coq Require Import List NArith Bool.
-From DV Require Import C17.Model C17.Proofs C18.Model C18.Proofs C18.Service C18.ProofsService C18.Dto C18.ProofsDto.
+From DV Require Import C17.Model C17.Proofs C18.Model C18.Proofs C18.Service C18.ProofsService C18.Dto C18.ProofsDto C18.Wire C18.ProofsWire.
 Import ListNotations.
 Open Scope N_scope.
 
@@ -80,6 +80,21 @@ Theorem C18_tck_roundtrip : forall (tyname : N -> text) (parse_simple : text -> 
   forall v, tck_value v = true -> ok ok_leaf ok_key v -> from_dto parse_simple parse_name (to_dto tyname v) = Some v.
 Proof. exact tck_roundtrip. Qed.
 
+(* the same with the concrete type names (xsd:string, xsd:decimal, ...), the concrete readers (strings as they are, numbers in plain
+   notation through the strict number reader, booleans, temporal leaves keeping their text, xsd:duration split by its day/time part)
+   and keys kept as they are: the premises for strings, numbers and booleans are discharged, those for temporal leaves reduce to
+   "the text names the kind" (their lexical forms are C14's subject).  to_dto0 / from_dto0 / tck_body are the functions the
+   correspondence check evaluates against the answers of /tck/evaluate. *)
+Theorem C18_tck_roundtrip_concrete : forall v, tck_value v = true -> ok (fun x => leaf_ok x = true) (fun _ => True) v ->
+  from_dto0 (to_dto0 v) = Some v.
+Proof. exact tck_roundtrip0. Qed.
+
+Example C18_tck_wire_nonvacuous :
+  let v := VCtx [([97], VList [VNum {| nneg := true; nint := [1; 0]; nfrac := [5; 0] |}; VStr [34; 92; 10]; VNull; VBool false]);
+                 ([98; 32; 98], VOther 5 [80; 84; 49; 83])] in
+  from_dto0 (to_dto0 v) = Some v /\ json_decode (tck_body v) <> None.
+Proof. exact tck_wire_nonvacuous. Qed.
+
 (* the code of the pinned commit *)
 Theorem C18_jsonify_orig_refuted :
   (wf v_john = true /\ plain v_john = true /\ json_parse (jsonify_orig v_john) = None) /\
@@ -124,6 +139,8 @@ Print Assumptions C18_replace_substitutes.
 Print Assumptions C18_evaluate_iff_deployed.
 Print Assumptions C18_every_answer_wellformed.
 Print Assumptions C18_tck_roundtrip.
+Print Assumptions C18_tck_roundtrip_concrete.
+Print Assumptions C18_tck_wire_nonvacuous.
 Print Assumptions C18_jsonify_orig_refuted.
 Print Assumptions C18_body_orig_refuted.
 Print Assumptions C18_replace_orig_refuted.
